@@ -192,6 +192,16 @@ class Automaton:
 
     def _probe(self):
         full = {}
+        # is the predicate "open" (claims every item for its group) at a given depth?  (absent method = never)
+        self.open = {}
+        for pi, p in enumerate(self.preds):
+            for d in range(-1, MAXD + 1):
+                q = copy.deepcopy(p)
+                sp = stateful_part(q)
+                if sp is not None:
+                    sp.depth = d
+                fn = getattr(q, "is_open", None)
+                self.open[(pi + 1, d)] = bool(fn()) if callable(fn) else False
         for pi, p in enumerate(self.preds):
             for d in range(-1, MAXD + 1):
                 for ci, (k, v) in enumerate(self.full_classes):
@@ -315,6 +325,7 @@ def tla_module(autos, name="AutomatonData") -> str:
                 drow.append(tup("<<%s, %d>>" % (b(a.acc[(pi, d, ci)][0]), a.acc[(pi, d, ci)][1]) for ci in range(1, len(a.classes) + 1)))
             prow.append(tup(drow))
         rows.append(tup(prow))
+    out.append("AOpen == " + tup(tup(tup(b(a.open[(pi, d)]) for d in range(-1, MAXD + 1)) for pi in range(1, len(a.preds) + 1)) for a in autos))
     out.append("AAcc == " + tup(rows))
     out.append("====")
     return "\n".join(out) + "\n"
